@@ -6,6 +6,7 @@ use elf::string_table::StringTable;
 pub const DEF: PropDef = PropDef { id: "C15", strata, run, setup, canaries: &["panic"] };
 
 fn setup(ctx: &mut Ctx) {
+    ctx.floor("strings-starting-with-a-special-character", 10_000);
     #[cfg(all(target_pointer_width = "64", not(miri)))]
     ctx.floor("lookups-at-offsets>=2^32-24", 200);
     ctx.floor("ok", 1000);
@@ -258,6 +259,26 @@ fn run(ctx: &mut Ctx, si: usize, case: u64) {
             if len > 0 && ctx.rng.chance(1, 3) {
                 table[len - 1] = b'x';
             }
+            if len > 8 && ctx.rng.chance(1, 3) {
+                // strings that *start* with a special character: byte-order mark, replacement character, line separator,
+                // no-break space, a combining mark, a 4-byte character
+                const SPECIALS: [&[u8]; 7] = [&[0xEF, 0xBB, 0xBF], &[0xEF, 0xBF, 0xBD], &[0xE2, 0x80, 0xA8], &[0xC2, 0xA0], &[0xCC, 0x81], &[0xF0, 0x9F, 0x98, 0x80], &[0xEF, 0xBF, 0xBE]];
+                for _ in 0..1 + ctx.rng.usize_below(3) {
+                    let sp = SPECIALS[ctx.rng.usize_below(SPECIALS.len())];
+                    let at = ctx.rng.usize_below(len - 6);
+                    table[at] = 0;
+                    table[at + 1..at + 1 + sp.len()].copy_from_slice(sp);
+                    // keep the rest of that string ASCII so that it is valid UTF-8 as a whole
+                    let mut j = at + 1 + sp.len();
+                    while j < len && table[j] != 0 {
+                        if table[j] >= 0x80 {
+                            table[j] = b'a';
+                        }
+                        j += 1;
+                    }
+                    ctx.count("strings-starting-with-a-special-character");
+                }
+            }
             if len > 3 && ctx.rng.chance(1, 4) {
                 // a valid 2-byte UTF-8 sequence somewhere, and one split by a NUL
                 let at = ctx.rng.usize_below(len - 2);
@@ -265,6 +286,11 @@ fn run(ctx: &mut Ctx, si: usize, case: u64) {
                 table[at + 1] = 0xA9;
             }
             ctx.sample(|| format!("table={} random offsets incl. len-1, len, usize::MAX", hex_trunc(&table, 48)));
+            // every string start of the first part of the table, then random offsets
+            let starts: Vec<usize> = (0..len.min(512)).filter(|i| *i == 0 || table[*i - 1] == 0).take(24).collect();
+            for off in starts {
+                check_lookup(ctx, &table, off);
+            }
             for _ in 0..12 {
                 let off = match ctx.rng.below(10) {
                     0 => usize::MAX,
